@@ -52,14 +52,19 @@ def str_eq_arms(f):
         sw = switch_after(f, t["target"], t["dest"]["l"])
         if sw is None:
             continue
-        out.append({"lit": lit, "true": sw[0], "false": sw[1], "bb": bi,
+        out.append({"lit": lit, "true": sw[0], "false": sw[1], "bb": bi, "sw": t["target"],
                     "scrut": describe_origin(f, f.origin_op(other)) if other is not None else "?", "line": t["span"]["line"]})
     return out
 
 
-def dominated_region(f, b):
-    """blocks dominated by b"""
+def dominated_region(f, b, src=None):
+    """blocks dominated by b; with src given: blocks that can only be reached through the edge src->b
+    (empty when b has another way in)"""
     dom = f.dominators()
+    if src is not None:
+        for p in f.preds(b):
+            if p != src and b not in dom.get(p, ()):
+                return set()
     return set(x for x in f.reachable() if b in dom.get(x, ()))
 
 
